@@ -71,12 +71,17 @@ CLAIMS = {
     },
 }
 
+CLAIMS["C15"] = {
+    "technique": "Verus postcondition `Ok ==> committed == bytes.len()` on the extracted bodies of Table::write_rows, StringPool::write_pool and write_data, with the generic writer instantiated by a sink that separates accepted from committed bytes and lets every call fail",
+    "text": "Unbounded proof (any number of rows/columns/pool entries, any failure point) that three of the four stream serializers report success only after a successful flush following their last write and propagate every writer error. This is the serializer-level part of the statement only.",
+    "note": "Trusted: the VSink model of Write (prelude/sink.rs); X3b instantiation of the by-value writer with &mut VSink. NOT covered: PropertySet::write, FinishImpl::finish / Package::flush / into_inner propagation, user-held StreamWriters, failing reads/seeks, cfb itself -- the package-level statement is NOT decided.",
+}
+
 NOT_APPLICABLE = {
     "C03": "The relational semantics live entirely in Insert/Update/Delete/Select::exec; their bodies (cfb I/O + closures + iterator adaptors + BTreeMap<Vec<Value>,_>) are rejected by Verus and unaffordable in CBMC, and rewriting them would be proving a model. Only leaf facts (Row indexing, C13) are in reach and do not decide the property.",
     "C04": "'Nothing changed after an error' is an ordering property inside create_table_with_name, drop_table, the exec methods and the stream methods of Package; none can be constructed or parsed by either verifier; the frame ranges over the cfb container.",
     "C05": "Uniqueness/order of stored keys is established by the BTreeMap in Insert::exec and broken (read) by Update::exec; both out of reach. The per-cell validity part is decided under C07.",
     "C12": "Join semantics are the nested loops of Join::exec (iterator chains, Rc<Table> construction, recursive Select::exec over cfb); out of reach of both verifiers.",
-    "C15": "Fault propagation needs a failing medium under cfb::CompoundFile (Package cannot be built in Kani without executing cfb); the four serializers that could carry a flush obligation use constructs Verus rejects (enumerate) or are unaffordable in CBMC with real Table/BTreeMap values. Not decided in this revision.",
     "C16": "Needs a write-counting medium under a real cfb::CompoundFile; Package cannot be built in Kani without executing cfb, and Verus has no view of the container.",
     "C20": "The limits are enforced (or not) in create_table_with_name, Insert::exec and the slot search of incref -- out of reach or beyond affordable unwinding; the limit checks in reach (StringRef::write at 16 bits, column width <= 255) are proved under C08 / C06.",
 }
